@@ -122,4 +122,4 @@ def per_unknown_addition_of_16k_octets(f):
     if not s or any(x[0] != 'comp' for x in s):
         return False
     vals = _unknown_comp_values(old, new, v, [])
-    return any(_maxbytes(x) >= 16382 for x in vals)
+    return any(_maxbytes(x) >= 16384 - 8 for x in vals)      # the open type (prefix + other members) exceeds 16384
